@@ -79,10 +79,17 @@ func genConfCase(t *rapid.T) interface{} {
 			op.Kind = "unbond"
 		case k < 89:
 			op.Kind = "rebond"
+		case k < 91:
+			// the external chain has moved far ahead (the validators report a deposit made at a much later height): every
+			// pending batch of the chain passes its timeout, the hub withdraws it and builds its transfers into a new batch
+			op.Kind = "tmout"
 		default:
 			op.Kind = "block"
 		}
 		c.Ops = append(c.Ops, op)
+		if op.Kind == "tmout" {
+			c.Ops = append(c.Ops, ConfOp{Kind: "block", Chain: op.Chain}, ConfOp{Kind: "block", Chain: op.Chain}, ConfOp{Kind: "mkbatch", Chain: op.Chain})
+		}
 	}
 	return c
 }
@@ -122,6 +129,8 @@ func runConfCase(ci interface{}, rec *pbt.Rec) *pbt.Failure {
 	gid := []byte(h.Cfg.GravityId)
 	var txs []*confTx
 	conf := map[string]map[int]confRec{} // tx key -> validator -> record
+	reused := 0
+	extH := uint64(100) // height the external chains report, never decreasing
 	nonceOf := map[string]uint64{}
 	var accepted, rejected int
 	kindsConfirmed := map[int]bool{}
@@ -154,6 +163,14 @@ func runConfCase(ci interface{}, rec *pbt.Rec) *pbt.Failure {
 				}
 				if !found {
 					txs = append(txs, &confTx{chain: ch, kind: 1, key: k, batch: b, digest: b.GetCheckpoint(gid)})
+				}
+				for _, t := range txs {
+					if t.key == k && !bytes.Equal(t.digest, b.GetCheckpoint(gid)) {
+						// another batch under an identifier that was in use before: a new transaction, which nobody has confirmed yet
+						t.batch, t.digest = b, b.GetCheckpoint(gid)
+						conf[k] = map[int]confRec{}
+						reused++
+					}
 				}
 			}
 			h.K.IterateOutgoingTxsByType(h.Ctx(), mtypes.ChainID(ch), mtypes.ContractCallTxPrefixByte, func(_ []byte, o mtypes.OutgoingTx) bool {
@@ -385,7 +402,22 @@ func runConfCase(ci interface{}, rec *pbt.Rec) *pbt.Failure {
 			}
 			b := bs[op.Pick%len(bs)]
 			n := h.K.GetLastObservedEventNonce(h.Ctx(), mtypes.ChainID(ch)) + 1
-			any, _ := mtypes.PackEvent(&mtypes.BatchExecutedEvent{ExternalCoinId: b.ExternalTokenId, EventNonce: n, ExternalHeight: 100, BatchNonce: b.BatchNonce, TxHash: "0x1", FeePaid: sdk.NewInt(1), FeePayer: sim.ExtUser(3).Hex()})
+			any, _ := mtypes.PackEvent(&mtypes.BatchExecutedEvent{ExternalCoinId: b.ExternalTokenId, EventNonce: n, ExternalHeight: extH, BatchNonce: b.BatchNonce, TxHash: "0x1", FeePaid: sdk.NewInt(1), FeePayer: sim.ExtUser(3).Hex()})
+			for vi := 0; vi < 4; vi++ {
+				if h.Staking.Vals[vi].Bonded {
+					h.Deliver(&mtypes.MsgSubmitExternalEvent{Event: any, Signer: sdk.AccAddress(sim.ValAddr(vi)).String(), ChainId: ch})
+				}
+			}
+		case "tmout":
+			extH += 10000000
+			n := h.K.GetLastObservedEventNonce(h.Ctx(), mtypes.ChainID(ch)) + 1
+			var ext string
+			for _, tk := range attTokens {
+				if tk.Chain == ch && tk.Denom == "hub" {
+					ext = tk.ExtId
+				}
+			}
+			any, _ := mtypes.PackEvent(&mtypes.SendToHubEvent{EventNonce: n, ExternalCoinId: ext, Amount: sdk.NewInt(5), Sender: sim.ExtUser(1).Hex(), CosmosReceiver: sim.UserAddr(1).String(), ExternalHeight: extH, TxHash: fmt.Sprintf("0x3%d", n)})
 			for vi := 0; vi < 4; vi++ {
 				if h.Staking.Vals[vi].Bonded {
 					h.Deliver(&mtypes.MsgSubmitExternalEvent{Event: any, Signer: sdk.AccAddress(sim.ValAddr(vi)).String(), ChainId: ch})
@@ -398,7 +430,7 @@ func runConfCase(ci interface{}, rec *pbt.Rec) *pbt.Failure {
 			}
 			ss := sets[len(sets)-1-op.Pick%len(sets)]
 			n := h.K.GetLastObservedEventNonce(h.Ctx(), mtypes.ChainID(ch)) + 1
-			any, _ := mtypes.PackEvent(&mtypes.SignerSetTxExecutedEvent{EventNonce: n, SignerSetTxNonce: ss.Nonce, ExternalHeight: 100, Members: ss.Signers, TxHash: "0x2"})
+			any, _ := mtypes.PackEvent(&mtypes.SignerSetTxExecutedEvent{EventNonce: n, SignerSetTxNonce: ss.Nonce, ExternalHeight: extH, Members: ss.Signers, TxHash: "0x2"})
 			for vi := 0; vi < 4; vi++ {
 				if h.Staking.Vals[vi].Bonded {
 					h.Deliver(&mtypes.MsgSubmitExternalEvent{Event: any, Signer: sdk.AccAddress(sim.ValAddr(vi)).String(), ChainId: ch})
@@ -554,6 +586,16 @@ func runConfCase(ci interface{}, rec *pbt.Rec) *pbt.Failure {
 		}
 	}
 	rec.NonTrivial = len(valsConfirmed) >= 2 && len(kindsConfirmed) >= 2 && rejected > 0
+	if reused > 0 {
+		rec.Label("batch-identifier-reused")
+	}
+	gone := 0
+	for _, t := range txs {
+		if t.kind == 1 && !t.live && len(conf[t.key]) > 0 {
+			gone++
+		}
+	}
+	rec.Label("confirmed-batches-gone=" + bucket(gone))
 	rec.Label("accepted=" + bucket(accepted))
 	rec.Label("rejected=" + bucket(rejected))
 	rec.Label(fmt.Sprintf("kinds-confirmed=%d", len(kindsConfirmed)))
